@@ -712,7 +712,20 @@ class Engine(object):
         self._record(rec)
         return rec['status'] == 'discharged'
 
+    def prove_aux(self, cond, label):
+        """Auxiliary obligation (loop invariant, variant): part of the proof, not of the property.
+        When it cannot be established the result is *undecided* - a proof that no longer goes
+        through - never a violation by itself."""
+        self._aux = True
+        try:
+            return self.prove(cond, label)
+        finally:
+            self._aux = False
+
     def _record(self, rec):
+        if rec['status'] == 'refuted' and getattr(self, '_aux', False):
+            rec['status'] = 'undecided'
+            rec['reason'] = ('auxiliary proof obligation (loop invariant) not established; counter-model %r' % (rec.pop('model', None),))[:400]
         if rec['status'] == 'refuted' and self.mode == 'symbolic' and rec.get('backend') == 'eval':
             # make sure the path itself is feasible before believing a concrete False
             r = self._check()
@@ -1058,6 +1071,13 @@ class Engine(object):
                 break
         if w is None:
             raise Unsupported('bitwise %s on symbolic integers without a proven width' % op)
+        if op == 'and' and nonneg:
+            # x & (2**k - 1) = x when 0 <= x < 2**k
+            for x, c in ((a, b), (b, a)):
+                if z3.is_int_value(c.t):
+                    cv = c.t.as_long()
+                    if cv >= 0 and (cv & (cv + 1)) == 0 and self._check(x.t > cv) == z3.unsat:
+                        return x
         f = {'and': bv.BAND, 'or': bv.BOR, 'xor': bv.BXOR}[op]
         r = f(a.t, b.t)
         if not nonneg:
